@@ -82,6 +82,7 @@ class ImplStore:
         ret = None
         outcome = "ok"
         self.warned_inconsistent = False
+        self.last_args = []      # plain arrays handed to the call (checked for aliasing / modification by C03)
         with warnings.catch_warnings(record=True) as w:
             warnings.simplefilter("always")
             try:
@@ -153,6 +154,7 @@ class ImplStore:
             O[j["out"]] = f(c, O[j["obj"]]) if j.get("refl") else f(O[j["obj"]], c); return None
         if op == "arrayop":
             arr = to_arr(j["values"], j["shape"])
+            self.last_args.append(arr)
             f = BIN[j["f"]]
             O[j["out"]] = f(arr, O[j["obj"]]) if j.get("refl") else f(O[j["obj"]], arr); return None
         if op == "method":
@@ -174,6 +176,8 @@ class ImplStore:
             O[j["out"]] = f(c, O[j["obj"]]) if j.get("refl") else f(O[j["obj"]], c); return None
         if op == "concat":
             coord = None if j.get("coord") is None else np.array([to_float(x) for x in j["coord"]])
+            if coord is not None:
+                self.last_args.append(coord)
             O[j["out"]] = dnp.concat([O[i] for i in j["objs"]], j["dim"], coord); return None
         if op == "proc":
             O[j["out"]] = self._proc(j["f"], O[j["obj"]], j["kw"]); return None
@@ -213,7 +217,9 @@ class ImplStore:
         if f == "normalize":
             return dnp.normalize(d, dim=kw.get("dim"))
         if f == "interp":
-            return dnp.interp(d, kw["dim"], np.array([to_float(x) for x in kw["new_coord"]]))
+            nc = np.array([to_float(x) for x in kw["new_coord"]])
+            self.last_args.append(nc)
+            return dnp.interp(d, kw["dim"], nc)
         if f == "average":
             return dnp.average(d, axis=kw["axis"])
         if f == "calculate_enhancement":
@@ -223,6 +229,7 @@ class ImplStore:
         if f == "phase":
             p0 = np.array([to_float(x) for x in kw["p0"]]) if isinstance(kw["p0"], list) else to_float(kw["p0"])
             p1 = np.array([to_float(x) for x in kw["p1"]]) if isinstance(kw["p1"], list) else to_float(kw["p1"])
+            self.last_args += [x for x in (p0, p1) if isinstance(x, np.ndarray)]
             return dnp.phase(d, kw["dim"], p0, p1)
         if f == "phase_cycle":
             return dnp.phase_cycle(d, kw["dim"], list(kw["rp"]))
